@@ -61,9 +61,12 @@ func MakeConfig(profile, tier string, seed int64, idx int) Config {
 		cfg.Votes = true
 		cfg.HandshakeDelayMax = 3
 		cfg.Hostile = idx%2 == 1
+		cfg.RetryDelay = []time.Duration{10 * time.Second, 60 * time.Second, 10 * time.Minute}[r.Intn(3)]
 	case "lifecycle":
-		cfg.LiveConsumers = 1
+		cfg.LiveConsumers = 2
 		cfg.HandshakeDelayMax = 4
+		cfg.StarveSome = true
+		cfg.CcvTimeout = time.Duration(120+r.Intn(400)) * time.Second
 	case "rewards":
 		cfg.LiveConsumers = 2
 		cfg.HandshakeDelayMax = 2
@@ -92,7 +95,7 @@ func menuFor(profile string) []opGen {
 	case "slash":
 		return []opGen{
 			{"delegate", 6, opDelegate}, {"undelegate", 6, opUndelegate}, {"redelegate", 2, opRedelegate},
-			{"unjail", 6, opUnjail}, {"opt-in", 4, opOptIn}, {"opt-out", 4, opOptOut}, {"assign-key", 6, opAssignKey},
+			{"unjail", 8, opUnjail}, {"opt-in", 6, opOptIn}, {"opt-out", 1, opOptOut}, {"assign-key", 6, opAssignKey},
 			{"update-consumer", 3, opUpdateConsumer}, {"gov-params", 2, opGovParams}, {"gov-staking", 1, opGovStaking},
 			{"create-consumer", 1, opCreateConsumer}, {"infraction", 8, opInfraction},
 		}
@@ -100,7 +103,7 @@ func menuFor(profile string) []opGen {
 		return []opGen{
 			{"create-consumer", 14, opCreateConsumer}, {"update-consumer", 14, opUpdateConsumer}, {"remove-consumer", 5, opRemoveConsumer},
 			{"opt-in", 10, opOptIn}, {"opt-out", 3, opOptOut}, {"assign-key", 4, opAssignKey}, {"commission", 2, opCommission},
-			{"delegate", 3, opDelegate}, {"undelegate", 3, opUndelegate},
+			{"delegate", 9, opDelegate}, {"undelegate", 6, opUndelegate},
 			{"to-gov", 3, opToGov}, {"gov-topn", 4, opGovTopN}, {"gov-staking", 2, opGovStaking}, {"infraction", 12, opInfraction},
 		}
 	case "rewards":
